@@ -648,6 +648,12 @@ class Evaluator:
             if isinstance(op, ast.LtE): return s.mkcmp('GtE', d.neg())
             if isinstance(op, ast.Eq): return s.mkcmp('Eq', d)
             if isinstance(op, ast.NotEq): return s.mkcmp('NotEq', d)
+        if isinstance(op, (ast.Eq, ast.NotEq)) and _pair_set(a) is not None and _pair_set(b) is not None:
+            # {a, b} == {c, d}  <=>  (a == c and b == d) or (a == d and b == c)
+            (p, q), (u, v) = _pair_set(a), _pair_set(b)
+            r = s.mkbool('or', [s.mkbool('and', [s.compare(ast.Eq(), p, u), s.compare(ast.Eq(), q, v)]),
+                                s.mkbool('and', [s.compare(ast.Eq(), p, v), s.compare(ast.Eq(), q, u)])])
+            return r if isinstance(op, ast.Eq) else s.negate(r)
         if isinstance(op, (ast.Eq, ast.NotEq)):
             if same(a, b) and not has_opaque(a): return isinstance(op, ast.Eq)
             if isinstance(a, (list, tuple)) and isinstance(b, (list, tuple)) and all(_is_concrete(x) for x in list(a) + list(b)):
@@ -1396,6 +1402,15 @@ class Evaluator:
             elif isinstance(t.value, ast.Name):
                 s.mutations.append((t.value.id, '__setitem__', [k, val]))
                 s.rebind(t.value.id, Opq('mutated', 'setitem', base, k, val), env)
+
+
+def _pair_set(v):
+    """(a, b) if v is the term of set((a, b)) / {a, b} with exactly two members"""
+    if isinstance(v, Opq) and v.k and v.k[0] == 'set':
+        items = v.k[1:]
+        if len(items) == 1 and isinstance(items[0], (tuple, list)): items = tuple(items[0])
+        if len(items) == 2: return items[0], items[1]
+    return None
 
 
 def _is_concrete(x):
